@@ -393,22 +393,38 @@ def check_unmatched(prog: Program, res: Result) -> None:
         if len(params) < 4:
             raise AnalysisError(f"{u.qualname}: unexpected signature {params}")
         inst_p, row_p, col_p = params[1], params[2], params[3]
-        comps = [c for c in walk_function(u.node) if isinstance(c, ast.ListComp) and len(c.generators) == 1 and c.generators[0].ifs
-                 and isinstance(c.generators[0].iter, ast.Call) and norm(c.generators[0].iter.func) == "range"]
-        if not comps:
-            raise AnalysisError(f"{u.qualname}: the list of unmatched detection indices was not found")
-        for c in comps:
-            g = c.generators[0]
-            where = f"{u.module.relpath}:{c.lineno}"
-            rng = norm(g.iter.args[0]) if len(g.iter.args) == 1 else ""
-            res.ob(R, rng.startswith(f"len({inst_p}"), u.qualname, f"candidates range over all current detections: {short(g.iter, 50)}",
-                   f"unmatched detections are searched in `{short(g.iter, 50)}`, not in all of `{inst_p}`", where)
-            t = g.ifs[0]
-            ok = isinstance(t, ast.Compare) and len(t.ops) == 1 and isinstance(t.ops[0], ast.NotIn) and norm(t.left) == norm(g.target) and norm(c.elt) == norm(g.target)
-            src = norm(_unwrap_index_set(u.node, t.comparators[0])) if ok else None
-            res.ob(R, ok and src == row_p, u.qualname, f"unmatched = indices not in the matched rows `{row_p}`",
-                   f"`{short(c, 70)}` excludes the members of `{src}`; the matched DETECTION indices are `{row_p}` (`{col_p}` holds track ids): a matched detection is "
+        tests = [c for c in walk_function(u.node) if isinstance(c, ast.Compare) and len(c.ops) == 1 and isinstance(c.ops[0], (ast.In, ast.NotIn))
+                 and norm(_unwrap_index_set(u.node, c.comparators[0])) in (row_p, col_p)]
+        if not tests:
+            raise AnalysisError(f"{u.qualname}: no membership test of a detection index against the matched indices was found")
+        for t in tests:
+            where = f"{u.module.relpath}:{t.lineno}"
+            src = norm(_unwrap_index_set(u.node, t.comparators[0]))
+            res.ob(R, src == row_p, u.qualname, f"unmatched = indices not in the matched rows `{row_p}`",
+                   f"`{short(t, 60)}` tests membership in `{src}`; the matched DETECTION indices are `{row_p}` (`{col_p}` holds track ids): a matched detection is "
                    "given a second, new track and the truly new one is returned without a track", where)
+            # the tested index ranges over all current detections
+            var = norm(t.left)
+            src_it = None
+            for a in ancestors(t):
+                gens = a.generators if isinstance(a, (ast.ListComp, ast.GeneratorExp, ast.SetComp)) else []
+                for g in gens:
+                    if var in astq.target_names(g.target):
+                        src_it = (g.iter, g.target)
+                if isinstance(a, ast.For) and var in astq.target_names(a.target):
+                    src_it = (a.iter, a.target)
+                if src_it is not None:
+                    break
+            ok = False
+            if src_it is not None:
+                it, tg = src_it
+                itx = astq.expand(u.node, it)
+                if isinstance(itx, ast.Call) and norm(itx.func) == "range" and len(itx.args) == 1:
+                    ok = norm(itx.args[0]).startswith(f"len({inst_p}")
+                elif isinstance(itx, ast.Call) and norm(itx.func) == "enumerate" and itx.args and isinstance(tg, ast.Tuple) and norm(tg.elts[0]) == var:
+                    ok = norm(itx.args[0]).startswith(inst_p)
+            res.ob(R, ok, u.qualname, f"candidates range over all current detections: {short(src_it[0], 50) if src_it else '?'}",
+                   f"unmatched detections are searched in `{short(src_it[0], 50) if src_it else '?'}`, not in all of `{inst_p}`", where)
     res.floor(R, 4)
 
 
@@ -452,8 +468,8 @@ VARIANTS = [
     # behaviour preserving
     Variant("match-mask-unguarded", UTF, '    # Sort edges by ascending cost.\n    rows, cols = np.unravel_index(np.argsort(cost_matrix, axis=None), cost_matrix.shape)\n    unassigned_edges = list(zip(rows, cols))\n\n    # Greedily assign edges.\n    row_inds, col_inds = [], []\n    while len(unassigned_edges) > 0:\n        # Assign the lowest cost edge.\n        row_ind, col_ind = unassigned_edges.pop(0)\n        row_inds.append(row_ind)\n        col_inds.append(col_ind)\n\n        # Remove all other edges that contain either node (in reverse order).\n        for i in range(len(unassigned_edges) - 1, -1, -1):\n            if unassigned_edges[i][0] == row_ind or unassigned_edges[i][1] == col_ind:\n                del unassigned_edges[i]\n', '    cost = np.array(cost_matrix, dtype="float64")\n    row_inds, col_inds = [], []\n    for _ in range(min(cost.shape)):\n        row_ind, col_ind = np.unravel_index(np.argmin(cost), cost.shape)\n        row_inds.append(row_ind)\n        col_inds.append(col_ind)\n        cost[row_ind, :] = np.inf\n        cost[:, col_ind] = np.inf\n', "C09-match"),
     Variant("match-mask-row-only", UTF, '    # Sort edges by ascending cost.\n    rows, cols = np.unravel_index(np.argsort(cost_matrix, axis=None), cost_matrix.shape)\n    unassigned_edges = list(zip(rows, cols))\n\n    # Greedily assign edges.\n    row_inds, col_inds = [], []\n    while len(unassigned_edges) > 0:\n        # Assign the lowest cost edge.\n        row_ind, col_ind = unassigned_edges.pop(0)\n        row_inds.append(row_ind)\n        col_inds.append(col_ind)\n\n        # Remove all other edges that contain either node (in reverse order).\n        for i in range(len(unassigned_edges) - 1, -1, -1):\n            if unassigned_edges[i][0] == row_ind or unassigned_edges[i][1] == col_ind:\n                del unassigned_edges[i]\n', '    cost = np.array(cost_matrix, dtype="float64")\n    row_inds, col_inds = [], []\n    for _ in range(min(cost.shape)):\n        row_ind, col_ind = np.unravel_index(np.argmin(cost), cost.shape)\n        if not np.isfinite(cost[row_ind, col_ind]):\n            break\n        row_inds.append(row_ind)\n        col_inds.append(col_ind)\n        cost[row_ind, :] = np.inf\n', "C09-match"),
-    Variant("unmatched-by-track-id", LQF, "                x for x in range(len(current_instances)) if x not in row_inds\n            ]",
-            "                x for x in range(len(current_instances)) if x not in matched_inds\n            ]", "C09-"),
+    Variant("unmatched-by-track-id", LQF, "            new_current_instances_inds = [\n                x for x in range(len(current_instances)) if x not in row_inds\n            ]",
+            "            matched_inds = set(col_inds)\n            new_current_instances_inds = [\n                x for x in range(len(current_instances)) if x not in matched_inds\n            ]", "C09-unmatched"),
     Variant("unmatched-cols", LQF, "                x for x in range(len(current_instances)) if x not in row_inds", "                x for x in range(len(current_instances)) if x not in set(col_inds)", "C09-unmatched"),
     Variant("bp-unmatched-set", FWF, "            new_current_instances_inds = [\n                x for x in range(len(current_instances.features)) if x not in row_inds\n            ]",
             "            matched = set(row_inds)\n            new_current_instances_inds = [\n                x for x in range(len(current_instances.features)) if x not in matched\n            ]", None),
